@@ -115,5 +115,10 @@ def run(repo, res):
                   '%s declarations are not recorded: a binding under the declaration is made a local of the inner '
                   'scope instead of the scope CPython assigns it to' % cls,
                   sample='%s names recorded' % cls)
+        if r is not None:
+            res.check('C05-R5', '%s declaration touches only its own block' % cls, not r['foreign'], r['line'][0], r['line'][1],
+                      'a %s statement changes the name tables of another scope (%s): a %s declaration only affects the block that '
+                      'contains it' % (cls.lower(), sorted({f for _v, f in r['foreign']}), cls.lower()),
+                      sample='%s changes only the declaring scope' % cls)
     res.assumptions.extend(['T1 table (sa/pyref.py) transcribes the language reference',
                             'comprehension targets are compared as bindings of the enclosing scope (property text)'])
